@@ -1,6 +1,8 @@
 package props
 
 import (
+	"go/token"
+	"go/types"
 	"strings"
 
 	"golang.org/x/tools/go/ssa"
@@ -12,15 +14,52 @@ import (
 // rulePanicInventory: every explicit panic in library code is either
 // construction-time API misuse or discharged by a named invariant rule.
 func rulePanicInventory(c *chk.Ctx) {
-	allowed := map[string]string{
-		"jrpc2.NewServer":                "documented API misuse: nil assigner at construction",
-		"(*jrpc2.Server).Start":          "documented API misuse: Start while running (guards RUN.startOnce)",
-		"(*jrpc2.Server).WaitStatus":     "invariant: queue empty at shutdown — discharged by RUN.guard (no insert after stop) and RUN.drain",
-		"(*jrpc2.Server).stopLocked":     "invariant: table emptied by the loop that dominates the check",
-		"(*jrpc2.Response).wait":         "invariant: id mismatch — discharged by TOKEN.keyed",
-		"handler.New":                    "documented API misuse: bad function at construction",
-		"handler.NewPos":                 "documented API misuse: bad function at construction",
-		"(*handler.FuncInfo).Wrap":       "documented API misuse: invalid FuncInfo at construction",
+	stop := stopFunc(c, "server")
+	start := startFunc(c)
+	roleOf := func(f *ssa.Function) string {
+		r := ir.Root(f)
+		switch {
+		case r == stop && f == r:
+			return "invariant in the stop function: table emptied by the loop that dominates the check"
+		case r == start && f == r:
+			return "documented API misuse: Start while running (this is the guard RUN.startOnce relies on)"
+		}
+		// the exported waiter of the lifetime group
+		for _, w := range waitSites(c, chk.PathOfVar(c.M.Server, c.M.SWg).String()) {
+			if w.Parent() == r && ir.Exported(r) && f == r {
+				return "invariant: queue empty at shutdown — discharged by RUN.guard (no insert after stop) and RUN.drain"
+			}
+		}
+		// the slot receiver
+		recvs := false
+		ir.Instrs(r, func(ins ssa.Instruction) {
+			if u, ok := ins.(*ssa.UnOp); ok && u.Op == token.ARROW && chk.LoadsField(u.X, c.M.RCh) {
+				recvs = true
+			}
+		})
+		if recvs && f == r {
+			return "invariant: id mismatch — discharged by TOKEN.keyed"
+		}
+		// constructors: exported package-level functions that build a Server, and the handler package's
+		// exported constructors (construction-time API misuse)
+		if ir.Exported(r) && r.Signature.Recv() == nil && f == r {
+			allocs := false
+			ir.Instrs(r, func(ins ssa.Instruction) {
+				if al, ok := ins.(*ssa.Alloc); ok && al.Heap && types.Unalias(al.Type().(*types.Pointer).Elem()) == types.Type(c.M.Server) {
+					allocs = true
+				}
+			})
+			if allocs {
+				return "documented API misuse: nil assigner at construction"
+			}
+			if inPkg(c, r, c.M.HandlerPkg) && r.Signature.Results().Len() == 1 && isHandlerSig(c, r.Signature.Results().At(0).Type()) {
+				return "documented API misuse: bad function at construction (handler constructor)"
+			}
+		}
+		if inPkg(c, r, c.M.HandlerPkg) && ir.Exported(r) && f == r && r.Signature.Results().Len() == 1 && isHandlerSig(c, r.Signature.Results().At(0).Type()) {
+			return "documented API misuse: invalid FuncInfo at construction"
+		}
+		return ""
 	}
 	n := 0
 	for _, f := range c.P.Funcs {
@@ -35,15 +74,10 @@ func rulePanicInventory(c *chk.Ctx) {
 				}
 			}
 			n++
-			name := ir.Name(ir.Root(f))
-			why, ok := allowed[name]
-			if ok && f.Parent() != nil && !strings.Contains(why, "construction") {
-				ok = false
-			}
-			if ok {
+			if why := roleOf(f); why != "" {
 				c.Exists("WHO.panic", f, "explicit panic", p.Pos(), "%s", why)
 			} else {
-				c.Undecided("WHO.panic", f, "explicit panic", p.Pos(), "an explicit panic outside the inventoried set: it must be shown unreachable from peer input (or be construction-time API misuse) before the survival clause can be claimed")
+				c.Undecided("WHO.panic", f, "explicit panic", p.Pos(), "an explicit panic outside the inventoried roles (constructors, the start guard, the stop/wait invariants, the slot receiver): it must be shown unreachable from peer input before the survival clause can be claimed")
 			}
 		})
 	}
